@@ -1,13 +1,109 @@
 """C14 (decided on the sequential loop model; see p_seqprops.py, oracles.py, coq/props/C14.v)"""
+import os
+import random
+import subprocess
+import tempfile
+
 import p_seqprops
 
 PROPS = ["C14"]
 PROFILES = [(3, {"lc_prob": 0.8, "kinds": {"comp": 6, "ping": 1, "timer": 1, "chan": 1}, "share_fd_prob": 0.2, "stats_prob": 0.8}), (1, {})]
+WAIT_MS = 250
+
+
+def timed_cases(tier, seed):
+    """lifecycle-only scenarios whose dispatches really wait (harness seqtimed): 1-3 lifecycle composites over idle fds, each with a
+    script of before_sleep answers (0 = None, 1 = a synthetic event) per dispatch, with disable / enable between dispatches (which
+    re-orders the lifecycle list)"""
+    rnd = random.Random(seed * 313 + 14)
+    out = ["=== lct_a\nB 1 1\nB 1 0\nB 2 0\nB 2 0\nC insert 1 comp 1 1 10 1 0\nC insert 2 comp 1 1 11 1 0\nD 0\nD 0\n",
+           "=== lct_b\nB 1 0\nB 1 0\nB 2 1\nB 2 0\nC insert 1 comp 1 1 10 1 0\nC insert 2 comp 1 1 11 1 0\nD 0\nD 0\n",
+           "=== lct_c\nB 1 1\nB 1 1\nB 2 0\nB 2 0\nC insert 1 comp 1 1 10 1 0\nC insert 2 comp 1 1 11 1 0\nD 0\nC disable 1\nC enable 1\nD 0\n"]
+    for k in range(4 if tier == "quick" else 40):
+        n = rnd.randint(1, 3)
+        nd = rnd.randint(2, 3)
+        lines = ["=== lct%d" % k]
+        for h in range(1, n + 1):
+            for _ in range(nd + 1):
+                lines.append("B %d %d" % (h, rnd.choice([0, 0, 1])))
+        for h in range(1, n + 1):
+            lines.append("C insert %d comp 1 1 %d 1 0" % (h, 9 + h))
+        for _ in range(nd):
+            if rnd.random() < 0.4:
+                h = rnd.randint(1, n)
+                lines += ["C disable %d" % h, "C enable %d" % h]
+            lines.append("D 0")
+        out.append("\n".join(lines) + "\n")
+    return out
+
+
+def judge_timed(trace):
+    """per dispatch: a synthetic before_sleep event (BS line with code 1) forces a non-blocking wait; without one, and with nothing
+    else pending, the dispatch waits out its timeout"""
+    bs, k = [], 0
+    for l in trace:
+        ws = l.split()
+        if ws[0] == "17":
+            bs = []
+        elif ws[0] == "3":
+            bs.append((int(ws[1]), int(ws[2])))
+        elif ws[0] == "20":
+            k += 1
+            el = int(ws[1])
+            synth = [h for h, c in bs if c == 1]
+            if synth and el > 120:
+                return ("dispatch %d blocked for %d ms although before_sleep of source %d had returned a synthetic event (before_sleep calls: %s): "
+                        "a synthetic event must force a non-blocking wait" % (k, el, synth[0], bs))
+            if not synth and el + 10 < WAIT_MS:
+                return "dispatch %d returned after %d ms of %d with no event, no synthetic event and nothing pending" % (k, el, WAIT_MS)
+    return None
+
+
+def timed_stage(chk, st):
+    import seqlib
+    import vlib
+    cases = timed_cases(chk.tier, chk.seed)
+    with tempfile.NamedTemporaryFile("w", suffix=".scn", delete=False, dir=os.path.join(vlib.ROOT, "replays")) as f:
+        f.write("".join(cases))
+        path = f.name
+    try:
+        p = subprocess.run([vlib.HARNESS, "seqtimed", path, str(WAIT_MS)], stdout=subprocess.PIPE, stderr=subprocess.PIPE, text=True, timeout=600)
+    finally:
+        os.unlink(path)
+    traces = seqlib.split_traces(p.stdout)
+    bad = []
+    for c in cases:
+        sid = c.split("\n")[0][4:].strip()
+        why = judge_timed(traces.get(sid, []))
+        if why:
+            bad.append((c, why, traces.get(sid, [])))
+    chk.cov["timed_lifecycle_cases"] = {"cases": len(cases), "failing": len(bad), "wait_ms": WAIT_MS,
+                                        "rule": "harness seqtimed: the scenario's dispatches really wait; elapsed time per dispatch vs the before_sleep answers of that dispatch"}
+    if bad:
+        c, why, tr = bad[0]
+        chk.violation("oracle-timed", "C14 violated on the real code: %s\n# timed lifecycle scenario (harness seqtimed <file> %d):\n%s# trace:\n%s"
+                      % (why, WAIT_MS, c, "\n".join("#   " + x for x in tr)))
 
 
 def main(tier, seed):
-    return p_seqprops.run("C14", tier, seed, PROFILES, props=PROPS)
+    return p_seqprops.run("C14", tier, seed, PROFILES, props=PROPS, extra_front=timed_stage)
 
 
 def replay(path):
+    txt = open(path).read()
+    if "timed lifecycle scenario" in txt:
+        import seqlib
+        import vlib
+        vlib.build_harness()
+        i = txt.index("=== ")
+        j = txt.index("# trace:")
+        scn = txt[i:j]
+        with tempfile.NamedTemporaryFile("w", suffix=".scn", delete=False) as f:
+            f.write(scn)
+        p = subprocess.run([vlib.HARNESS, "seqtimed", f.name, str(WAIT_MS)], stdout=subprocess.PIPE, text=True)
+        os.unlink(f.name)
+        tr = list(seqlib.split_traces(p.stdout).values())
+        why = judge_timed(tr[0]) if tr else "no trace"
+        print(why or "ok")
+        return 1 if why else 0
     return p_seqprops.replay("C14", path, props=PROPS)
